@@ -115,10 +115,17 @@ fn impulse_blech32_l128() {
 }
 
 //@ harness: impulse_blech32_full class=F tier=thorough props=C17 timeout=1800
-//@ clause: same for every distance d <= 1022, i.e. for every string of up to 1023 checksummed symbols (hrp expansion + data) — the true length of the code; every address is < 140 symbols
+//@ clause: real Engine<Blech32>: x^d mod g non-zero and non-constant for every distance d <= 1022, i.e. for every string of up to 1023 checksummed symbols (hrp expansion + data) — the true length of the code; every address is < 140 symbols
 #[kani::proof]
 fn impulse_blech32_full() {
     assert!(scan_blech32(1023).is_none());
+    kani::cover!(true);
+}
+
+//@ harness: impulse_blech32m_full class=F tier=thorough props=C17 timeout=1800
+//@ clause: same for the real Engine<Blech32m>
+#[kani::proof]
+fn impulse_blech32m_full() {
     assert!(scan_blech32m(1023).is_none());
     kani::cover!(true);
 }
@@ -133,11 +140,19 @@ fn impulse_bech32_l90() {
 }
 
 //@ harness: impulse_bech32_full class=F tier=thorough props=C17 timeout=1800
-//@ clause: same for every distance below bech32's CODE_LENGTH = 1023
+//@ clause: bech32 crate Engine<Bech32>: same for every distance below bech32's CODE_LENGTH = 1023
 #[kani::proof]
 fn impulse_bech32_full() {
     assert!(<Bech32 as Checksum>::CODE_LENGTH == 1023);
     assert!(scan_bech32(1023).is_none());
+    kani::cover!(true);
+}
+
+//@ harness: impulse_bech32m_full class=F tier=thorough props=C17 timeout=1800
+//@ clause: same for Engine<Bech32m>
+#[kani::proof]
+fn impulse_bech32m_full() {
+    assert!(<Bech32m as Checksum>::CODE_LENGTH == 1023);
     assert!(scan_bech32m(1023).is_none());
     kani::cover!(true);
 }
